@@ -33,6 +33,8 @@ pub struct CProfile {
     pub dl_far: u32,
     pub dl_short: u32,
     pub dl_past: u32,
+    /// weight of very long deadlines (days .. ~2.1 years, below the timer wheel's range)
+    pub dl_huge: u32,
     pub yields: bool,
     pub max_in_flight: std::ops::RangeInclusive<usize>,
     pub buffer: std::ops::RangeInclusive<usize>,
@@ -64,6 +66,7 @@ impl Default for CProfile {
             dl_far: 8,
             dl_short: 2,
             dl_past: 1,
+            dl_huge: 0,
             yields: false,
             max_in_flight: 1..=6,
             buffer: 1..=4,
@@ -86,6 +89,17 @@ pub fn dl_strategy(p: &CProfile) -> BoxedStrategy<Dl> {
                 (0u64..60_000).prop_map(Dl::InUs),
                 (0u64..60).prop_map(|ms| Dl::InUs(ms * 1000)),
                 Just(Dl::InUs(0)),
+            ]
+            .boxed(),
+        ));
+    }
+    if p.dl_huge > 0 {
+        v.push((
+            p.dl_huge,
+            prop_oneof![
+                (86_400u64..40 * 86_400).prop_map(Dl::InSecs),
+                (300 * 86_400u64..66_000_000).prop_map(Dl::InSecs),
+                Just(Dl::InSecs(66_000_000)),
             ]
             .boxed(),
         ));
